@@ -76,12 +76,143 @@ def gen_union(tg, rng):
     return tuple(members)
 
 
+SPECIAL_PRE = """
+class Refused(Exception):
+    pass
+
+class Pt(NamedTuple):
+    x: int
+    y: int
+
+class Tok(SerializableType):
+    def __init__(self, v):
+        self.v = v
+    def __eq__(self, o):
+        return type(o) is Tok and o.v == self.v
+    def _serialize(self):
+        return 'tok:' + self.v
+    @classmethod
+    def _deserialize(cls, value):
+        if not (isinstance(value, str) and value.startswith('tok:')):
+            raise Refused('not a token')
+        return cls(value[4:])
+"""
+
+
+def special_cases(rng, tier, rec, fam):
+    """hand-shaped corners of the same rules: (A) a member that refuses an input with an exception of its own making is
+    just a member that does not accept; (B) a nullable shape at the ROOT of a codec with a wire decoder in front;
+    (C) a NamedTuple member of a union field that carries an engine option."""
+    import json
+    from mashumaro.codecs.basic import BasicDecoder, BasicEncoder
+    fam.exec_src(SPECIAL_PRE)
+    mod = fam.module
+    which = rng.choice("ABC")
+    det = lambda **kw: dict({"scenario": which}, **kw)
+
+    def check(label, fn, expected, src=""):
+        rec.evaluation()
+        try:
+            got = fn()
+        except Exception as e:
+            got = e
+        ok = (not isinstance(got, Exception)) and type(got) is type(expected) and got == expected
+        if ok:
+            rec.count("special_agree")
+            rec.count(f"special_agree:{which}")
+            rec.nontrivial(("special", which, label))
+        else:
+            rec.violation(f"special:{which}:{label.split('|')[0]}", det(label=label, observed=f"{type(got).__name__}: {got!r}"[:300], expected=repr(expected)[:200], source=src),
+                          {"scenario": "special-" + which})
+    if which == "A":
+        how = rng.choice(["raise Refused('negative')", "assert False, 'negative'", "raise RuntimeError('negative')", "raise OSError('negative')",
+                          "raise StopIteration", "raise re.error('negative')"])
+        where = rng.choice(["__post_init__", "__post_deserialize__"])
+        if where == "__post_init__":
+            hook = f"    def __post_init__(self):\n        if self.n < 0:\n            {how}\n"
+        else:
+            hook = f"    @classmethod\n    def __post_deserialize__(cls, obj):\n        if obj.n < 0:\n            {how}\n        return obj\n"
+        mixin = "(DataClassDictMixin)" if where == "__post_deserialize__" or rng.random() < 0.5 else ""
+        src = (f"@dataclass\nclass Strict{mixin}:\n    n: int\n{hook}"
+               f"@dataclass\nclass Loose{mixin}:\n    n: int\n    note: str = ''\n"
+               "@dataclass\nclass H(DataClassDictMixin):\n    u: Union[Strict, Loose]\n    p: Union[re.Pattern, str] = ''\n    t: Union[Tok, int, str] = 0\n"
+               "    l: List[Union[Strict, Loose]] = field(default_factory=list)\n")
+        fam.exec_src(src)
+        H, Strict, Loose, Tok = mod.H, mod.Strict, mod.Loose, mod.Tok
+        check("field|accepted-by-first", lambda: H.from_dict({"u": {"n": 1}}).u, Strict(1), src)
+        check("field|refused-by-first", lambda: H.from_dict({"u": {"n": -1}}).u, Loose(-1), src)
+        check("list|refused-by-first", lambda: H.from_dict({"u": {"n": 1}, "l": [{"n": -2}, {"n": 2}]}).l, [Loose(-2), Strict(2)], src)
+        dec = BasicDecoder(eval("Union[Strict, Loose]", mod.__dict__))
+        check("codec|refused-by-first", lambda: dec.decode({"n": -1}), Loose(-1), src)
+        check("codec|accepted-by-first", lambda: dec.decode({"n": 3}), Strict(3), src)
+        check("pattern|invalid-regex-is-a-string", lambda: H.from_dict({"u": {"n": 1}, "p": "("}).p, "(", src)
+        check("pattern|valid-regex", lambda: H.from_dict({"u": {"n": 1}, "p": "a+"}).p.pattern, "a+", src)
+        check("serializable|own-error-means-next-member", lambda: H.from_dict({"u": {"n": 1}, "t": "plain"}).t, "plain", src)
+        check("serializable|accepted", lambda: H.from_dict({"u": {"n": 1}, "t": "tok:z"}).t, Tok("z"), src)
+        check("serializable|int-member-exact", lambda: H.from_dict({"u": {"n": 1}, "t": 5}).t, 5, src)
+    elif which == "B":
+        import datetime
+        import msgpack
+        import yaml
+        from mashumaro.codecs.json import JSONDecoder
+        from mashumaro.codecs.yaml import YAMLDecoder
+        from mashumaro.codecs.msgpack import MessagePackDecoder
+        from mashumaro.codecs.orjson import ORJSONDecoder
+        fam.exec_src("@dataclass\nclass Dc:\n    n: int = 0\n")
+        inner_src, val, wire = rng.choice([("datetime.date", datetime.date(2020, 1, 2), "2020-01-02"), ("str", "s", "s"), ("bool", True, True), ("int", 5, 5),
+                                          ("List[int]", [1], [1]), ("Dict[str, int]", {"a": 1}, {"a": 1}), ("Dc", mod.Dc(3), {"n": 3}),
+                                          ("float", 1.5, 1.5), ("Pt", mod.Pt(1, 2), [1, 2])])
+        shape_src = rng.choice(["Optional[{t}]", "Optional[{t}]", "Union[{t}, None]", "Union[None, {t}]", "Union[{t}, bytes, None]", "Optional[Annotated[{t}, 'm']]"]).format(t=inner_src)
+        T = eval(shape_src, mod.__dict__)
+        decs = [("json", lambda: JSONDecoder(T), json.dumps), ("yaml", lambda: YAMLDecoder(T), yaml.safe_dump), ("orjson", lambda: ORJSONDecoder(T), lambda x: json.dumps(x).encode()),
+                ("msgpack", lambda: MessagePackDecoder(T), lambda x: msgpack.packb(x, use_bin_type=True)),
+                ("basic+pre_decoder", lambda: BasicDecoder(T, pre_decoder_func=json.loads), json.dumps), ("basic", lambda: BasicDecoder(T), lambda x: x)]
+        for name, mk, dump in decs:
+            try:
+                d = mk()
+            except Exception as e:
+                rec.violation(f"special:B:codec-build:{type(e).__name__}", det(shape=shape_src, codec=name, error=str(e)[:200]), {"scenario": "special-B"})
+                continue
+            for lab, doc, exp in (("null", None, None), ("value", wire, val)):
+                rec.evaluation()
+                try:
+                    got = d.decode(dump(doc))
+                except Exception as e:
+                    got = e
+                if (exp is None and got is None) or (exp is not None and type(got) is type(exp) and got == exp):
+                    rec.count("special_agree")
+                    rec.count("special_agree:B")
+                    rec.nontrivial(("special", "B", shape_src, name, lab))
+                else:
+                    rec.violation(f"special:B:root-{lab}:{name}", det(shape=shape_src, codec=name, document=repr(dump(doc))[:80], observed=f"{type(got).__name__}: {got!r}"[:200], expected=repr(exp)),
+                                  {"scenario": "special-B"})
+    else:
+        eng = rng.choice(["as_dict", "as_list"])
+        cfg_nt = rng.random() < 0.5
+        ann = rng.choice(["Union[Pt, str]", "Union[str, Pt]", "Optional[Union[Pt, str]]", "Union[Pt, None, int]", "Union[int, Tuple[Pt, int]]"])
+        src = (f"@dataclass\nclass HN(DataClassDictMixin):\n    u: {ann} = field(metadata=field_options(serialize={eng!r}, deserialize={eng!r}))\n    plain: Union[Pt, str] = ''\n"
+               + ("    class Config(BaseConfig):\n        namedtuple_as_dict = True\n" if cfg_nt else ""))
+        fam.exec_src(src)
+        HN, Pt = mod.HN, mod.Pt
+        tup = "Tuple[Pt" in ann
+        v = (Pt(1, 2), 7) if tup else Pt(1, 2)
+        as_dict = eng == "as_dict"
+        enc_pt = {"x": 1, "y": 2} if as_dict else [1, 2]
+        enc_plain = {"x": 3, "y": 4} if cfg_nt else [3, 4]
+        check("encode|engine-reaches-the-member", lambda: HN(u=v, plain=Pt(3, 4)).to_dict(), {"u": [enc_pt, 7] if tup else enc_pt, "plain": enc_plain}, src)
+        check("decode|engine-reaches-the-member", lambda: HN.from_dict({"u": [enc_pt, 7] if tup else enc_pt, "plain": enc_plain}), HN(u=v, plain=Pt(3, 4)), src)
+        if "str" in ann:
+            check("roundtrip|other-member", lambda: HN.from_dict(HN(u="txt").to_dict()).u, "txt", src)
+
+
 def run_case(seed, tier, rec, st):
     from mashumaro.codecs.basic import BasicDecoder, BasicEncoder
     from mashumaro.exceptions import InvalidFieldValue
     rng = random.Random(seed)
     fam = Family("c11")
     try:
+        if rng.random() < 0.1:
+            return special_cases(rng, tier, rec, fam)
         tg = TypeGen(fam, rng)
         tg.lit_conflate = True
         tg.allow_self = False
